@@ -51,6 +51,28 @@ _recv("C07", "The machine makes the pong an obligation that must be discharged b
       "executed and the interleaving of transport reads and writes is validated by TLC.",
       "TLC exhaustive model checking + TLC trace validation of read/write interleavings")
 
+CHECKS["C09"] = dict(
+    engine="Http+ConnectM+ConnectMC+TraceConnect",
+    technique="TLC exhaustive model checking of the connect machine over response-head classes x redirect limits + "
+              "TLC trace validation (TraceConnect) of real connect()/create_connection() runs on a simulated network",
+    text="Accepts(head, key, offered) and the redirect rule are TLA+ operators; TLC checks the machine over all chains of "
+         "head classes against every limit (ConnectedOnlyIfValid, RedirectNeverSuccess, RedirectsBounded); the class product of "
+         "status x Upgrade x Connection x accept kind x subprotocol, redirect chains of length 0..5 against limits 0..4 and heads "
+         "cut at every n-th byte are served to the real connect() over fake transports and every run is validated by TLC, "
+         "including transport cleanup.",
+    note="Trusts TLC, vf/networld.py, and the generator's class labels; SHA-1/base64 of the accept value is computed by the "
+         "harness from the key captured on the wire.", ref="4 C09")
+CHECKS["C17"] = dict(
+    engine="Recv+RecvMC+TraceRecv+ConnectM+TraceConnect",
+    technique="TLC model checking of the receive machine over raw byte strings (totality, bounded requests) + TLC trace "
+              "validation of real recv*/connect runs on exhaustive short prefixes, grammar-based corruptions and random bytes",
+    text="Recv.tla is total over byte streams (TLC: Total, ReqBounded on all strings over a byte alphabet up to a bound); every "
+         "exception class, every transport request size and progress are clauses of the trace specs; frame phase and handshake "
+         "phase are driven with exhaustive short prefixes, single-field corruptions, truncations, oversized declared lengths and "
+         "random bytes, followed by end of stream or silence.",
+    note="Trusts TLC and the harness; a spin without any transport call is detected by a 10 s alarm per call; the request cap for "
+         "the handshake phase is taken to be 16384 bytes like in the frame phase.", ref="4 C17")
+
 NOT_YET = {}
 
 
